@@ -328,3 +328,6 @@ Definition extrude_cells_t (nv : nat) (cells : list nat) (t : mat nat) : mat nat
 Definition wrap_signed (bits : nat) (z : Z) : Z :=
   ((z + 2 ^ Z.of_nat (bits - 1)) mod 2 ^ Z.of_nat bits - 2 ^ Z.of_nat (bits - 1))%Z.
 Definition facet_key_machine (bits nv : nat) (f : list nat) : Z := wrap_signed bits (Z.of_nat (facet_key nv f)).
+
+(* Mesh.restrict(elements, skip_boundaries, skip_subdomains): a skipped or absent kind of tags becomes None, the other is remapped *)
+Definition restrict_option {A} (keep present : bool) (x : A) : option A := if keep && present then Some x else None.
